@@ -244,6 +244,19 @@ func (e *Engine) VerifyFunction(fn *ssa.Function) (ctx *FnCtx, err error) {
 	if fr.fc != nil && fr.fc.Decr != nil {
 		ctx.entryMeasure = ctx.evalGhost(st, e.ld.GhostFunc(fr.fc.Decr.Fn), termArgs(fr.params))
 	}
+	// every loop contract must bind to a loop of this function (fail closed)
+	if fr.fc != nil && len(fr.fc.Loops) > 0 {
+		li := analyzeLoops(fn)
+		have := map[int]bool{}
+		for _, ord := range li.heads {
+			have[ord] = true
+		}
+		for k := range fr.fc.Loops {
+			if !have[k] {
+				return ctx, fmt.Errorf("contract-target: loop #%d of %s does not exist (the function has %d loops)", k, fn.Name(), len(li.heads))
+			}
+		}
+	}
 	fr.entryState = st.clone()
 	ctx.entryFacts = len(ctx.facts)
 	ctx.entryWM = fr.entryState.wm
@@ -630,6 +643,15 @@ func (c *FnCtx) enterLoop(fr *Frame, h *ssa.BasicBlock, ord int, st *State) *Sta
 	wl := newWriteLog()
 	c.writeLog = wl
 	nf := len(c.facts)
+	// memo tables of "fact already added" must not remember facts that are discarded with the dry run
+	savedSeen := map[string]bool{}
+	for k, v := range c.specSeen {
+		savedSeen[k] = v
+	}
+	savedLayerInst := map[[2]int]bool{}
+	for k, v := range c.layerInst {
+		savedLayerInst[k] = v
+	}
 	c.noObl++
 	maxID := c.eng.ts.n
 	dry := st.clone()
@@ -639,6 +661,15 @@ func (c *FnCtx) enterLoop(fr *Frame, h *ssa.BasicBlock, ord int, st *State) *Sta
 	c.noObl--
 	c.facts = c.facts[:nf]
 	c.triggers = c.triggers[:nf]
+	if c.specSeen != nil {
+		c.specSeen = savedSeen
+	}
+	c.layerInst = savedLayerInst
+	for k := range c.trigNth {
+		if k >= nf {
+			delete(c.trigNth, k)
+		}
+	}
 	c.writeLog = savedLog
 	// 3. havoc
 	out := st.clone()
@@ -744,6 +775,8 @@ func (c *FnCtx) enterLoop(fr *Frame, h *ssa.BasicBlock, ord int, st *State) *Sta
 
 func (c *FnCtx) backEdge(fr *Frame, h *ssa.BasicBlock, st *State, from *ssa.BasicBlock) {
 	ord := fr.loops.heads[h]
+	c.curLatch = fmt.Sprintf("@b%d", from.Index)
+	defer func() { c.curLatch = "" }()
 	var lc *LoopContract
 	if fr.fc != nil {
 		lc = fr.fc.Loops[ord]
@@ -801,7 +834,7 @@ func (c *FnCtx) loopInvs(fr *Frame, h *ssa.BasicBlock, ord int, lc *LoopContract
 						if mode == "assume" {
 							c.addFact(st, g)
 						} else {
-							c.addObl(st, mode, fmt.Sprintf("loop%d#auto-rangeindex", ord), g, headPos(h), "-1 <= rangeindex < len")
+							c.addObl(st, mode, fmt.Sprintf("loop%d#auto-rangeindex%s", ord, c.curLatch), g, headPos(h), "-1 <= rangeindex < len")
 						}
 					}
 				}
@@ -828,7 +861,7 @@ func (c *FnCtx) loopInvs(fr *Frame, h *ssa.BasicBlock, ord int, lc *LoopContract
 		if mode == "assume" {
 			c.addFact(st, r)
 		} else {
-			c.addObl(st, mode, fmt.Sprintf("loop%d#%d", ord, i), r, headPos(h), inv.Raw)
+			c.addObl(st, mode, fmt.Sprintf("loop%d#%d%s", ord, i, c.curLatch), r, headPos(h), inv.Raw)
 		}
 	}
 }
